@@ -484,7 +484,7 @@ pub fn install_quiet_panic_hook() {
     std::panic::set_hook(Box::new(|info| {
         let msg = panic_message_from_info(info);
         // panics raised by the harness's own code are machinery faults: always visible
-        if info.location().is_some_and(|l| l.file().starts_with("src/")) {
+        if info.location().is_some_and(|l| l.file().starts_with("src/")) || msg.contains("unsafe precondition") || std::env::var("KV_LOUD").is_ok() {
             eprintln!("harness panic: {msg}");
         }
         LAST_PANIC.with(|c| *c.borrow_mut() = Some(msg));
